@@ -753,6 +753,29 @@ def s_winwin_call_loop(out: f32[4, 8]):
             out[i, j] = x[6 + i, j]
 
 
+@seed("config", "loop1", "late_read")
+@proc
+def s_cfg_late_read(n: size, x: f32[n]):
+    # the configuration write in iteration i is only read in a LATER iteration, under an index-dependent guard
+    assert n > 1
+    for i in seq(0, n):
+        if i == n - 1:
+            if CfgA.a == 3:
+                x[i] = 1.0
+        CfgA.a = 3
+
+
+@seed("config", "loop1", "late_read", "call")
+@proc
+def s_cfg_late_read_call(n: size, x: f32[n]):
+    assert n > 1
+    for i in seq(0, n):
+        if i > 0:
+            if CfgA.a == 7:
+                x[i] = 2.0
+        sp_cfg_write(7)
+
+
 @seed("if_else", "blocks")
 @proc
 def s_if_else_blocks(n: size, b: bool, x: f32[n], y: f32[n], z: f32[n]):
